@@ -15,7 +15,7 @@ use serde_json::{json, Value};
 pub const META: Meta = Meta {
     id: "C06",
     level: "exploration",
-    rule: "Cases: entity length from a few hundred bytes to 2^64-1 (incl. 10^k and 2^k boundaries so that numbers have 1-20 digits), 2-8 satisfiable ranges built from anchors so that they overlap, touch, repeat and come out of order, in all three spec forms, sized so that the statement requires multipart (plus a band between the thresholds); 0-4 entity headers of length 0-200 incl. duplicate names and bytes >= 0x80; with and without a matching If-Range; chunked entity streams; optionally one astronomically large last part (checked on a drained prefix + arithmetic). Oracle: strict length-driven multipart parser written from RFC 2046/7233, reference range resolver, position-hashed content. Non-trivial = >= 2 parts parsed to the closing delimiter (or to the huge last part); distinct by fingerprint of the case.",
+    rule: "Cases: entity length from a few hundred bytes to 2^64-1 (incl. 10^k and 2^k boundaries so that numbers have 1-20 digits), 2-8 (occasionally up to 40) satisfiable ranges built from anchors so that they overlap, touch, repeat and come out of order, in all three spec forms, sized so that the statement requires multipart (plus a band between the thresholds); 0-4 entity headers of length 0-200 incl. duplicate names and bytes >= 0x80; with and without a matching If-Range; chunked entity streams; optionally one astronomically large last part (checked on a drained prefix + arithmetic). Oracle: strict length-driven multipart parser written from RFC 2046/7233, reference range resolver, position-hashed content. Non-trivial = >= 2 parts parsed to the closing delimiter (or to the huge last part); distinct by fingerprint of the case.",
     assumptions: &[
         "harness entity honours the Entity contract",
         "a part longer than the drain cap must be the last one; the total is then checked arithmetically from the parsed prefix",
@@ -169,7 +169,7 @@ pub fn c06_lens() -> BoxedStrategy<u64> {
 
 fn anchored_ranges(l: u64) -> BoxedStrategy<(String, bool)> {
     // Returns (range header value, whether the last part is huge).
-    (2usize..=8, any::<bool>(), 0u8..10)
+    (prop_oneof![10 => 2usize..=8, 1 => 9usize..=40], any::<bool>(), 0u8..10)
         .prop_flat_map(move |(n, huge_last, band)| {
             let n64 = n as u64;
             // band 0: between the thresholds (ranges + 80 each under L but not under L/2).
@@ -258,6 +258,7 @@ pub fn case_strategy() -> BoxedStrategy<Case> {
                     plan,
                     faults: vec![],
                     tail: vec![],
+                    segments: 0,
                 },
                 req,
             }
